@@ -6,7 +6,7 @@
    [hide v]   : v with every subtree under "$output: false" removed, None when v itself is hidden;
    [ok_true], [ok_false] : no list marker entry carries other keys (the code rejects those: C11_extra_keys). *)
 From Coq Require Import String Ascii List ZArith.
-From Bkl Require Import Model.Value Model.Merge Model.Eval Proofs.OutputProofs.
+From Bkl Require Import Model.Value Model.Merge Model.Eval Proofs.OutputProofs Proofs.ValidProofs.
 Import ListNotations.
 Local Open Scope string_scope.
 Local Open Scope list_scope.
@@ -49,3 +49,15 @@ Example C11_example :
   ok_true d /\ map hide (selected d) =
     [Some (VMap [("svc", VMap [("name", VStr "inner")])]); Some (VMap [("name", VStr "inner")])].
 Proof. cbn. repeat split; congruence. Qed.
+
+(* no $output marker survives into the output: every output document is the $$-unescaping of a tree validation accepted
+   (C07_outputs_valid), and an accepted tree has no key "$output" anywhere - so an "$output" key in an output can only be
+   the unescaping of a literal "$$output" the user wrote *)
+Theorem C11_no_marker_survives : forall o docs outs, eval_docs o docs = Ok outs ->
+  Forall (fun out => exists y, out = finalize y /\ ~ has_key_anywhere "$output" y) outs.
+Proof.
+  intros o docs outs H. pose proof (eval_docs_valid o docs outs H) as Hv.
+  eapply Forall_impl; [|exact Hv]. intros out (y & E & V). exists y. split; [exact E|].
+  apply (validated_no_key o "$output" y (validate_string_output o) V).
+Qed.
+Print Assumptions C11_no_marker_survives.
